@@ -24,6 +24,17 @@ NoObj      == [i \in {} |-> 0]
 
 Step(newObjs, e, o) == objs' = newObjs /\ exp' = e /\ obs' = o /\ l' = l + 1
 
+\* C13: a terminal (free / clear / destructor) event may carry the raw bytes of the object after
+\* the call and a pair number "wipe".  Each history is run twice with different secrets and equal
+\* public shape; the second run's bytes must equal the first run's: nothing secret-derived remains.
+\* The first run's bytes are parked in objs under the negative key -wipe.
+HasWipe(ev) == "wipe" \in DOMAIN ev /\ "raw" \in DOMAIN ev
+FreeStep(ev, newObjs, e, o) ==
+  IF ~HasWipe(ev) THEN Step(newObjs, e, o)
+  ELSE IF (0 - ev.wipe) \in DOMAIN objs
+       THEN Step([i \in (DOMAIN newObjs) \ {0 - ev.wipe} |-> newObjs[i]], <<e, objs[0 - ev.wipe].raw>>, <<o, ev.raw>>)
+       ELSE Step([i \in (DOMAIN newObjs) \cup {0 - ev.wipe} |-> IF i = 0 - ev.wipe THEN [kind |-> "wipe", raw |-> ev.raw] ELSE newObjs[i]], e, o)
+
 Init == l = 1 /\ objs = NoObj /\ exp = <<>> /\ obs = <<>>
 
 TrReset == IsEv("Reset") /\ Step(NoObj, <<>>, <<>>)
@@ -35,7 +46,7 @@ PS(ev) == objs[ev.obj].s
 
 TrPermInit == IsEv("perm.init") /\ LET ev == T[l] IN
   Step(PSet(ev, State0), <<State0.d>>, <<ev.s40>>)
-TrPermFree == IsEv("perm.free") /\ LET ev == T[l] IN Step(Del(ev.obj), <<>>, <<>>)
+TrPermFree == IsEv("perm.free") /\ LET ev == T[l] IN FreeStep(ev, Del(ev.obj), <<>>, <<>>)
 TrPermAdd == IsEv("perm.add") /\ LET ev == T[l]  s == XorIn(PS(ev), ev.off, ev.data) IN
   Step(PSet(ev, s), <<s.d>>, <<ev.s40>>)
 TrPermOvw == IsEv("perm.overwrite") /\ LET ev == T[l]  s == Ovw(PS(ev), ev.off, ev.data) IN
@@ -94,7 +105,7 @@ TrSpPad == IsEv("sp.pad") /\ LET ev == T[l]  o == SpPad(SpPar(ev.kind), objs[ev.
 TrSpCopy == IsEv("sp.copy") /\ LET ev == T[l]  o == objs[ev.src] IN
   Step(SpSet(ev, o), StOf(o), StEv(ev))
 TrSpFree == IsEv("sp.free") /\ LET ev == T[l] IN
-  Step(Del(ev.obj), <<0, 0>>, <<ev.count, ev.mode>>)
+  FreeStep(ev, Del(ev.obj), <<0, 0>>, <<ev.count, ev.mode>>)
 
 \* one-shot functions against L1
 TrOsHash == IsEv("os.hash") /\ LET ev == T[l]
@@ -206,7 +217,7 @@ TrIncEncFin == IsEv("inc.encfin") /\ LET ev == T[l]  r == IncFinal(IncPar(ev.sch
   Step(IncSet(ev, r.o), <<IncSt(r.o), r.tag, 1>>, <<IncStEv(ev), ev.out, ev.guard>>)
 TrIncDecFin == IsEv("inc.decfin") /\ LET ev == T[l]  r == IncFinal(IncPar(ev.scheme), objs[ev.obj]) IN
   Step(IncSet(ev, r.o), <<IncSt(r.o), IF r.tag = ev.tag THEN 0 ELSE -1>>, <<IncStEv(ev), ev.ret>>)
-TrIncFree == IsEv("inc.free") /\ LET ev == T[l] IN Step(Del(ev.obj), <<>>, <<>>)
+TrIncFree == IsEv("inc.free") /\ LET ev == T[l] IN FreeStep(ev, Del(ev.obj), <<>>, <<>>)
 
 TrNonceInc == IsEv("nonce.inc") /\ LET ev == T[l] IN
   Step(objs, <<NonceAdd(ev.n, ev.times), 1>>, <<ev.out, ev.guard>>)
@@ -232,7 +243,7 @@ TrHkdfExpand == IsEv("hkdf.expand") /\ LET ev == T[l]  v == HmFor(ev.kind)
 \* positioning through the documented public fields: the object is whatever the fields now say
 TrHkdfPoke == IsEv("hkdf.poke") /\ LET ev == T[l] IN
   Step(HkSet(ev, [prk |-> ev.prk, out |-> ev.sout, counter |-> ev.counter, posn |-> ev.posn]), <<>>, <<>>)
-TrHkdfFree == IsEv("hkdf.free") /\ LET ev == T[l] IN Step(Del(ev.obj), <<>>, <<>>)
+TrHkdfFree == IsEv("hkdf.free") /\ LET ev == T[l] IN FreeStep(ev, Del(ev.obj), <<>>, <<>>)
 
 XorFold(s) == FoldLeft(LAMBDA acc, i : [acc EXCEPT ![((i - 1) % 32) + 1] = BX(@, s[i])], Zeros(32), Idx(Len(s)))
 TrOsHkdf == IsEv("os.hkdf") /\ LET ev == T[l]  v == HmFor(ev.kind)
@@ -269,7 +280,7 @@ TrIsapKeyDec == IsEv("isapkey.dec") /\ LET ev == T[l]  pk == Pk(ev) IN
   ELSE LET r == IsapDecPk(IsapV(ev.scheme), pk, ev.n, ev.ad, ev["in"]) IN
        IF r.ok THEN Step(objs, <<0, Len(ev["in"]) - 16, r.m, IsapSave(pk), 1, 1>>, <<ev.ret, ev.mlen, ev.out, ev.saved, ev.raw_same, ev.guard>>)
        ELSE Step(objs, <<-1, 1, IsapSave(pk), 1, 1>>, <<ev.ret, ev.allzero, ev.saved, ev.raw_same, ev.guard>>)
-TrIsapKeyFree == IsEv("isapkey.free") /\ LET ev == T[l] IN Step(Del(ev.obj), <<>>, <<>>)
+TrIsapKeyFree == IsEv("isapkey.free") /\ LET ev == T[l] IN FreeStep(ev, Del(ev.obj), <<>>, <<>>)
 
 IsapNext == TrIsapKeyInit \/ TrIsapKeyLoad \/ TrIsapKeySave \/ TrIsapKeyEnc \/ TrIsapKeyDec \/ TrIsapKeyFree
 (* C15: SpongePRNG.  The trace carries the draws the wrapped system source *)
@@ -307,7 +318,7 @@ TrPrngNull == IsEv("prng.null") /\ LET ev == T[l] IN
   Step(objs, <<0, 0, -1, -1, 0>>, <<ev.init, ev.reseed, ev.save, ev.load, Len(ev.draws)>>)
 TrPrngGlobal == IsEv("prng.global") /\ LET ev == T[l]  r == RandomOneShot(DrawOf(ev, 1), ev.n) IN
   Step(objs, <<IF ev.via_fetch = 1 THEN -7 ELSE r.ret, r.out, 1, 1>>, <<ev.ret, ev.out, Len(ev.draws), ev.guard>>)
-TrPrngFree == IsEv("prng.free") /\ LET ev == T[l] IN Step(Del(ev.obj), <<0>>, <<ev.counter>>)
+TrPrngFree == IsEv("prng.free") /\ LET ev == T[l] IN FreeStep(ev, Del(ev.obj), <<0>>, <<ev.counter>>)
 
 PrngNext == TrPrngInit \/ TrPrngFetch \/ TrPrngFeed \/ TrPrngReseed \/ TrPrngPoke \/ TrPrngSave \/ TrPrngLoad
             \/ TrPrngNull \/ TrPrngGlobal \/ TrPrngFree
@@ -333,11 +344,11 @@ TrCppDec == IsEv("cpp.dec") /\ LET ev == T[l]  o == CppO(ev) IN
        IF r.ok THEN Step(CppSet(ev, [o EXCEPT !.nonce = NonceInc(o.nonce)]), <<Len(ev.ct) - 16, r.m, 1>>, <<ev.ret, ev.out, ev.guard>>)
        ELSE Step(objs, <<-1, 1, 1, 1>>, <<ev.ret, IF ev.form = "ptr" THEN ev.allzero ELSE 1, ev.empty_on_fail, ev.guard>>)
 TrCppClear == IsEv("cpp.clear") /\ LET ev == T[l]  o == CppO(ev) IN
-  Step(CppSet(ev, [o EXCEPT !.key = ZeroKeyOf(CppScheme(o.cls)), !.nonce = Zero16]), <<>>, <<>>)
+  FreeStep(ev, CppSet(ev, [o EXCEPT !.key = ZeroKeyOf(CppScheme(o.cls)), !.nonce = Zero16]), <<>>, <<>>)
 TrCppSaveKey == IsEv("cpp.save_key") /\ LET ev == T[l] IN
   Step(objs, <<CppSavedKey(CppO(ev)), 1>>, <<ev.out, ev.guard>>)
 TrCppRandomize == IsEv("cpp.randomize_key") /\ Step(objs, <<>>, <<>>)     \* value-preserving (checked by the following packets)
-TrCppDel == IsEv("cpp.del") /\ LET ev == T[l] IN Step(Del(ev.obj), <<>>, <<>>)
+TrCppDel == IsEv("cpp.del") /\ LET ev == T[l] IN FreeStep(ev, Del(ev.obj), <<>>, <<>>)
 
 MiscNext == TrCppNew \/ TrCppSetKey \/ TrCppSetNonce \/ TrCppSetCounter \/ TrCppEnc \/ TrCppDec \/ TrCppClear
             \/ TrCppSaveKey \/ TrCppRandomize \/ TrCppDel
@@ -368,7 +379,7 @@ TrCxhAbsorb == IsEv("cxh.absorb") /\ LET ev == T[l]
 TrCxhSqueeze == IsEv("cxh.squeeze") /\ LET ev == T[l]  r == SpSqueeze(CxhPar(ev), objs[ev.obj], ev.n) IN
   Step(CxhSet(ev, r.o), <<StOf(r.o), r.out, 1>>, <<StEv(ev), ev.out, ev.guard>>)
 TrCxhPad == IsEv("cxh.pad") /\ LET ev == T[l]  o == SpPad(CxhPar(ev), objs[ev.obj]) IN Step(CxhSet(ev, o), StOf(o), StEv(ev))
-TrCxhDel == IsEv("cxh.del") /\ LET ev == T[l] IN Step(Del(ev.obj), <<>>, <<>>)
+TrCxhDel == IsEv("cxh.del") /\ LET ev == T[l] IN FreeStep(ev, Del(ev.obj), <<>>, <<>>)
 TrCxhDigest == IsEv("cxh.digest") /\ LET ev == T[l] IN
   Step(objs, <<IF ev.cls = "hash" THEN Hash(ev["in"]) ELSE Hasha(ev["in"]), 1>>, <<ev.out, ev.guard>>)
 
@@ -454,14 +465,14 @@ TrMsOp == IsEv("ms.op") /\ LET ev == T[l]  nm == ev.name IN
          Step(MsSet(ev.obj, v), <<v, TRUE>>, <<ev.val, StateRawOK(ev, ev.val)>>)
     [] nm = "to_x1" -> Step(objs, <<MwVal(ev.obj), MwVal(ev.obj)>>, <<ev.out, ev.val>>)
     [] nm = "from" -> LET v == MwVal(ev.src) IN Step(MsSet(ev.obj, v), <<v, v, TRUE>>, <<ev.val, ev.srcval, StateRawOK(ev, ev.val)>>)
-    [] nm = "free" -> Step(Del(ev.obj), <<>>, <<>>)
+    [] nm = "free" -> FreeStep(ev, Del(ev.obj), <<>>, <<>>)
 
 MkSet(id, k) == Put(id, [kind |-> "mkey", v |-> k])
 TrMkOp == IsEv("mk.op") /\ LET ev == T[l]  nm == ev.name IN
   CASE nm = "init" -> Step(MkSet(ev.obj, ev.key), <<ev.key, 1>>, <<ev.out, ev.guard>>)
     [] nm = "extract" -> Step(objs, <<MwVal(ev.obj), 1>>, <<ev.out, ev.guard>>)
     [] nm = "randomize" -> Step(objs, <<MwVal(ev.obj), 1, TRUE>>, <<ev.out, ev.guard, RefreshOK(ev, ev.raw_before, ev.raw, ev.shares)>>)
-    [] nm = "free" -> Step(Del(ev.obj), <<>>, <<>>)
+    [] nm = "free" -> FreeStep(ev, Del(ev.obj), <<>>, <<>>)
 MaskedNext == TrMwOp \/ TrMsOp \/ TrMkOp
 
 -----------------------------------------------------------------------------
